@@ -31,6 +31,7 @@ ASSUMPTIONS = [
 MIN_NONTRIVIAL_FRACTION = 0.3
 RULE += " Added after the seeded rounds: " + 'Stage names may repeat; a second run of the same cascade must equal the first; gates, processors and handlers raise one of 16 exception types.'
 RULE += ' 1/40 of the cases run the cascade 1001 more times before the comparison run (bound of the result history).'
+RULE += ' Exceptions raised by gates, processors and handlers may carry no message at all or a falsy one.'
 EXHAUSTIVE_NOTE = {"quick": "all pipelines of 1..2 stages over 48 stage behaviours x halt on/off (2*(48+2304) = 4704), complete",
                    "thorough": "all pipelines of 1..3 stages over 48 stage behaviours x halt on/off (2*(48+2304+110592) = 225888), complete"}
 
